@@ -225,6 +225,10 @@ class Interp:
             import operator
             op = [operator.lt, operator.le, operator.eq, operator.ne, operator.ge, operator.gt][c[2]]
             return op(self.tracked[c[1]], c[3])
+        if h == 'tracked2':
+            import operator
+            op = [operator.lt, operator.le, operator.eq, operator.ne, operator.ge, operator.gt][c[2]]
+            return op(self.tracked[c[1]], self.tracked[c[3]])
         if h == 'reslevel':
             import operator
             op = [operator.lt, operator.le, operator.eq, operator.ne, operator.ge, operator.gt][c[2]]
@@ -367,6 +371,17 @@ class Interp:
                         break
                 else:
                     raise
+        elif h == 'finally':
+            body, cleanup = s[1][1:], s[2][1:]
+            try:
+                await self.block(label, body)
+            except BaseException as e:    # noqa
+                self.emit(label, 'cleanup', [1] + self.exn_code(e, True))
+                await self.block(label, cleanup)
+                raise
+            else:
+                self.emit(label, 'cleanup', [0])
+                await self.block(label, cleanup)
         elif h == 'ret':
             self.emit(label, 'ret', [s[1]])
             raise _Ret(s[1])
